@@ -293,4 +293,33 @@ def rmLoopB (h : Nat) : Nat → Chain → Nat → Run
 
 def rmToB (c : Chain) (h : Nat) (k : Nat) : Run := rmLoopB h (topHeight c) c k
 
+/-! ### Crash points during the very first start-up (the genesis groups being saved) -/
+
+/-- The genesis loop of `initGroupChain` under a write budget. -/
+def saveAllB : List Group → Chain → Nat → Run
+  | [], c, k => .done c k
+  | g :: t, c, k =>
+    match saveB c g k with
+    | .done c' k' => saveAllB t c' k'
+    | r => r
+
+/-- A (re-)run of the genesis branch on store `d` with budget `k`; `none` when `d` already has
+    a last-group pointer (start-up then takes the other branch and writes nothing). -/
+def firstBootB (d : Store) (m : List Bytes) (gs : List Group) (k : Nat) : Option Run :=
+  match sget d curKey, gs with
+  | none, g0 :: _ => some (saveAllB gs { disk := d, count := 0, last := g0, mirror := m } k)
+  | _, _ => none
+
+/-- `getFirstGroupBelowHeight(x)`: walk the iterator from `last`, return the first group whose
+    `CreateHeight ≤ x` (the fork switch picks the common ancestor with it). -/
+def firstBelowWalk (d : Store) (x : Nat) : Nat → Group → Option Group
+  | 0, _ => none
+  | fuel + 1, g =>
+    if g.create ≤ x then some g
+    else match getGroupById d g.pre with
+      | none => none
+      | some p => firstBelowWalk d x fuel p
+
+def firstBelow (c : Chain) (x : Nat) : Option Group := firstBelowWalk c.disk x (c.disk.length + 1) c.last
+
 end Rangers.Model.GroupChain
